@@ -127,17 +127,17 @@ func msgFramesS2C(id int64, msg []byte, chunk int) []*tunnelpb.ServerToClient {
 
 // RawStreamView is what a raw client has received for one stream id.
 type RawStreamView struct {
-	Headers    int
-	HeaderMD   *tunnelpb.Metadata
-	Msgs       [][]byte // completely received response messages (marshalled)
-	partial    []byte
-	partialLen int
-	Closes     int
-	Close      *tunnelpb.CloseStream
-	WinUpdates int
-	Credit     uint64
+	Headers          int
+	HeaderMD         *tunnelpb.Metadata
+	Msgs             [][]byte // completely received response messages (marshalled)
+	partial          []byte
+	partialLen       int
+	Closes           int
+	Close            *tunnelpb.CloseStream
+	WinUpdates       int
+	Credit           uint64
 	FramesAfterClose int
-	Garbled    bool
+	Garbled          bool
 }
 
 type c2sStream interface {
@@ -147,25 +147,25 @@ type c2sStream interface {
 
 // RawClient plays the tunnel client.
 type RawClient struct {
-	w        *World
-	str      c2sStream
-	hangup   func() // ends the carrier stream cleanly from this side
-	abort    context.CancelFunc
+	w          *World
+	str        c2sStream
+	hangup     func() // ends the carrier stream cleanly from this side
+	abort      context.CancelFunc
 	Negotiated bool // both ends advertised negotiation: settings expected
 
 	sendMu sync.Mutex
 
-	mu        sync.Mutex
-	Settings  *tunnelpb.Settings
-	SettingsN int
+	mu            sync.Mutex
+	Settings      *tunnelpb.Settings
+	SettingsN     int
 	SettingsFirst bool
-	nFrames   int
-	Streams   map[int64]*RawStreamView
-	RecvDone  bool
-	RecvErr   error
-	AutoCredit bool
-	SendErrs  int
-	Sent      int
+	nFrames       int
+	Streams       map[int64]*RawStreamView
+	RecvDone      bool
+	RecvErr       error
+	AutoCredit    bool
+	SendErrs      int
+	Sent          int
 }
 
 func (rc *RawClient) view(id int64) *RawStreamView {
@@ -387,18 +387,18 @@ type s2cStream interface {
 
 // RawServerStream is what a raw server has received for one stream id.
 type RawServerStream struct {
-	ID        int64
-	Tag       string
-	New       *tunnelpb.NewStream
-	Msgs      [][]byte
-	partial   []byte
+	ID         int64
+	Tag        string
+	New        *tunnelpb.NewStream
+	Msgs       [][]byte
+	partial    []byte
 	partialLen int
-	DataBytes int
+	DataBytes  int
 	HalfClosed int
-	Cancels   int
+	Cancels    int
 	WinUpdates int
-	Credit    uint64
-	Frames    int
+	Credit     uint64
+	Frames     int
 }
 
 // RawProgram tells the raw server what to send for a stream: OnNew frames are
@@ -411,10 +411,10 @@ type RawProgram struct {
 
 // RawServer plays the tunnel server.
 type RawServer struct {
-	w       *World
-	str     s2cStream
-	end     func(error)
-	sendMu  sync.Mutex
+	w          *World
+	str        s2cStream
+	end        func(error)
+	sendMu     sync.Mutex
 	AutoCredit bool
 
 	mu       sync.Mutex
@@ -641,5 +641,5 @@ type reverseClientAdapter struct {
 	s tunnelpb.TunnelService_OpenReverseTunnelClient
 }
 
-func (a reverseClientAdapter) Send(f *tunnelpb.ServerToClient) error { return a.s.Send(f) }
+func (a reverseClientAdapter) Send(f *tunnelpb.ServerToClient) error   { return a.s.Send(f) }
 func (a reverseClientAdapter) Recv() (*tunnelpb.ClientToServer, error) { return a.s.Recv() }
